@@ -105,6 +105,37 @@ Definition spec_tags (le is64 : bool) (machine osabi : Z) (es : list dent) (tab 
 
 Definition g_dent (s : sx) : dent := (gI (nthx 0 (gL s)), gI (nthx 1 (gL s))).
 
+(* ---- histories on one object: the stateful model and the reference over the model's own tag list ---- *)
+Definition g_hop (s : sx) : hop :=
+  let l := gL s in let k := gS (nthx 0 l) in
+  if k =? "start" then HStart (match nthx 1 l with SS n => Some n | _ => None end)
+  else if k =? "next" then HNext (gnat (nthx 1 l))
+  else if k =? "num_tags" then HNumTags
+  else HGetTag (gI (nthx 1 l)).
+Definition sx_hans (a : hans rawtag) : sx :=
+  match a with
+  | AStarted => SS "started"
+  | ATag t => SL [SS "tag"; sx_ename (fst t); SI (snd t)]
+  | AStop => SS "stop"
+  | ANum n => SL [SS "num"; SI n]
+  | AErr e => sx_of_err e
+  | ANoWalk => SS "nowalk"
+  end.
+Definition history (img : list Z) (seg : bool) (ops : list hop) : sx :=
+  match elf_open img with
+  | Err e => sx_of_err e
+  | Ok f =>
+      match (if seg then the_dynamic_segment f else the_dynamic_section f) with
+      | Err e => sx_of_err e
+      | Ok dy =>
+          SL [SL (map sx_hans (hrun f dy (dst_init dy) ops));
+              match raw_tags f dy with
+              | Ok ts => SL (map sx_hans (rrun rawtag tmatch ts [] ops))
+              | Err e => sx_of_err e
+              end]
+      end
+  end.
+
 Definition dispatch (req : sx) : sx :=
   let l := gL req in
   let op := gS (nthx 0 l) in
@@ -115,6 +146,7 @@ Definition dispatch (req : sx) : sx :=
   else if op =? "observe" then observe (gB a1) (map gB (gL a2))
   else if op =? "wf" then SL [sx_bool (consistent_b (gB a1)); sx_bool (sym_consistent_b (gB a1));
                                   sx_bool (seg_consistent_b (gB a1))]
+  else if op =? "history" then history (gB a1) (gbool a2) (map g_hop (gL a3))
   else if op =? "stripped_of" then sx_bool (stripped_of_b (gB a1) (gB a2))
   else if op =? "spec_tags" then spec_tags (gbool a1) (gbool a2) (gI a3) (gI a4) (map g_dent (gL a5)) (gB a6)
   else if op =? "gnu_valid" then sx_bool (gnu_valid (gbool a1) (gbool a2) (gB a3) (gI a4))
